@@ -1,8 +1,9 @@
 --------------------------- MODULE Trace_Ds9Steps ---------------------------
 (* Per-line trace validation of the real DS9 reader (regions/io/ds9/read.py::_parse_raw_data).    *)
 (* The guarded hook `ds9.read.line` logs the reader's persistent variables after the loop body    *)
-(* has processed each physical line: frame, global_meta, composite_meta and the number of region  *)
-(* records accumulated.  An event is [file |-> abstract lines, log |-> logged states]; the trace   *)
+(* has processed each physical line (it fires at the head of every iteration and once after the  *)
+(* loop, so the first event is the initial state): frame, global_meta, composite_meta and the      *)
+(* number of region records accumulated.  An event is [file |-> abstract lines, log |-> logged states]; the trace   *)
 (* spec re-uses Ds9!StepLine as its only action and requires after every step that the projection  *)
 (* of the model state equals the logged one.  The verdict names the first failing step and clause.  *)
 EXTENDS Ds9, Json, IOUtils
@@ -17,7 +18,9 @@ Clause(s2, n2, g) ==
   ELSE IF g.n # n2 THEN "region_records"
   ELSE "ok"
 Init == t \in 1..Len(Events) /\ i = 1 /\ s = St0 /\ n = 0
-        /\ verdict = IF Len(Events[t].log) # Len(Events[t].file) THEN "line_count" ELSE "ok"
+        /\ verdict = IF Len(Events[t].init) # 1 THEN "no_initial_state"
+                     ELSE IF Clause(St0, 0, Events[t].init[1]) # "ok" THEN "initial_" \o Clause(St0, 0, Events[t].init[1])
+                     ELSE IF Len(Events[t].log) # Len(Events[t].file) THEN "line_count" ELSE "ok"
 Step == /\ verdict = "ok" /\ i <= Len(Events[t].file)
         /\ LET l == Events[t].file[i]
                s2 == StepLine(s, l)
